@@ -18,6 +18,7 @@
 //   srv hostile  <cases.ndjson> <report.ndjson> <seed> <Messages per server> <sequences> <sequence length> [shard nshards]
 //        C07.  HostileSpace.tla's Messages injected one by one / in sequences, from one or two clients, valve closed for one of them.
 //   srv ctrleak  <report.ndjson>      directed case of the repaired finding F40 (a recycled DataNode must restart its child numbering)
+//   srv priv     <menu.json> <report.ndjson>     server instances with configured privilege patterns (Isolation.tla PrivCases)
 //   srv probe ...  measurements used while building
 #include "reflector/ReflectServer.h"
 #include "reflector/StorageReflectSession.h"
@@ -224,6 +225,7 @@ int main(int argc, char ** argv)
    if (mode == "iso")     rc = IsoReplay(argc, argv);
    if (mode == "isorand") rc = IsoRandom(argc, argv);
    if (mode == "ctrleak")     rc = CtrLeakDirected(argc, argv);
+   if (mode == "priv")    rc = PrivRun(argc, argv);
    if (mode == "oq")      rc = OqReplay(argc, argv);
    if (mode == "hostile") rc = HostileRun(argc, argv);
    if (rc >= 0) {fflush(NULL); return rc;}
